@@ -41,6 +41,8 @@ func (s *rpcDagSess) uuidArg(u string) (string, bool) {
 	switch {
 	case u == "" || u == "auto":
 		return "", false
+	case dagm.IsOddArg(u): // third round: strings that are not identifiers (c07_args.go)
+		return s.ConcreteArg(u)
 	case strings.HasPrefix(u, "dup"):
 		k, _ := strconv.Atoi(u[3:])
 		if k >= 1 && k <= len(s.UUIDs) {
